@@ -2,6 +2,7 @@
 import atexit
 import json
 import os
+import sys
 import shutil
 import tempfile
 import time
@@ -18,6 +19,46 @@ class Violation(Exception):
         self.sig = sig
         self.message = message
         self.detail = detail
+
+
+class Reach:
+    """M7: which functions of the repository under test actually ran, and how
+    often (sys.monitoring PY_START; code objects outside <repo>/biom, and its
+    tests, are DISABLEd at their first event so the overhead stays small)."""
+
+    def __init__(self):
+        self.counts = {}
+        self.on = False
+
+    def start(self):
+        mon = getattr(sys, 'monitoring', None)
+        if mon is None:
+            return
+        root = os.path.join(common.REPO, 'biom') + os.sep
+        tests = os.path.join(root, 'tests') + os.sep
+        counts = self.counts
+
+        def on_start(code, offset):
+            fn = code.co_filename
+            if not fn.startswith(root) or fn.startswith(tests):
+                return mon.DISABLE
+            key = '%s:%s' % (fn[len(root):], code.co_qualname)
+            counts[key] = counts.get(key, 0) + 1
+        try:
+            mon.use_tool_id(mon.PROFILER_ID, 'vm-reach')
+            mon.register_callback(mon.PROFILER_ID, mon.events.PY_START,
+                                  on_start)
+            mon.set_events(mon.PROFILER_ID, mon.events.PY_START)
+            self.on = True
+        except Exception:
+            self.on = False
+
+    def stop(self):
+        mon = getattr(sys, 'monitoring', None)
+        if mon is not None and self.on:
+            mon.set_events(mon.PROFILER_ID, 0)
+            mon.free_tool_id(mon.PROFILER_ID)
+            self.on = False
 
 
 class Ctx:
@@ -40,6 +81,9 @@ class Ctx:
         self.biom = common.import_biom()
         self.t0 = time.time()
         self.extra = {}
+        self.reach = Reach()
+        if not replay and os.environ.get('VERIF_NO_REACH') != '1':
+            self.reach.start()
 
     # ------------------------------------------------------------ randomness
     def rng(self, index, *more):
@@ -90,7 +134,9 @@ class Ctx:
 
     # ---------------------------------------------------------------- output
     def result(self):
-        return {'evaluations': self.evaluations, 'fps': sorted(self.fps),
+        self.reach.stop()
+        return {'reach': self.reach.counts,
+                'evaluations': self.evaluations, 'fps': sorted(self.fps),
                 'counters': self.counters, 'samples': self.samples,
                 'violations': self.violations, 'classes': self.classes,
                 'skips': self.skips, 'extra': self.extra,
